@@ -13,6 +13,8 @@
 -/
 import Gts.Lemmas.Select
 import Gts.Lemmas.LessOrder
+import Gts.Lemmas.SelectEsc
+import Gts.Bridge.FeatSelector
 namespace Gts.C19
 open Gts Loc SelSpec
 
@@ -106,6 +108,208 @@ example :
       accepts m "/note=b" ⟨"gene", point 0, [["note", "a"], ["note", "b"]]⟩ ∧
     (selector v m "/pseudo").map (fun p => p ⟨"gene", point 0, [["pseudo"]]⟩) = some true ∧
       ¬ accepts m "/pseudo" ⟨"gene", point 0, [["pseudo"]]⟩ := by
+  decide
+
+/-! ## selectors with backslashes; qualifier tables as they are
+
+`SelSpec.escSplit bs sl` (`Gts/Spec/SelectorEsc.lean`) is the declarative split: a separator splits
+unless the TEXT in front of it ends in a backslash followed by zero or more slashes; nothing is
+removed from the segments.  `selectorSegments` = the segments, a trailing empty one behind the key
+dropped (`for tail != ""`).  /repo documents no escape convention (neither the doc comment of
+`Selector` nor the man pages); what the code does differs from the conventional reading "a `/`
+immediately preceded by a backslash does not split" exactly on strings containing `\//`, backslashes
+do not pair (`\\/` does not split either) and are never removed. -/
+
+/-- **the split with escapes, every byte string**: the key `shiftSelector` returns and the parts the
+loop `for tail != ""` of `Selector` goes through (`selectorParts`, iterating `shiftSelector`) are the
+segments of the declarative split -/
+theorem selector_parts_spec (s : Pars.Bytes) :
+    (shiftSelectorB s).1 :: selectorParts ((shiftSelectorB s).2.length + 1) (shiftSelectorB s).2 =
+      selectorSegments (92 : UInt8) 47 s := selectorParts_segments s
+
+/-- **… for the code AS IT IS WRITTEN NOW** (`Gts.Gen.selector`, regenerated from feature.go on every
+run; `Key` / `And` / `FalseFilter` / `Qualifier` abstract): for every byte string `Selector` never
+panics, applies `Key` to the first segment of the declarative split and folds `And(·, Qualifier(name,
+regexp))` over the further segments in order (each split at its first `=`), the first error ending it -/
+theorem gen_selector_segments {φ ε : Type} (key : Pars.Bytes → φ) (false_ : φ) (and_ : φ → φ → φ)
+    (qual : Pars.Bytes → Pars.Bytes → φ × Option ε) (s : Pars.Bytes) (fuel : Nat) (h : s.length ≤ fuel) :
+    ∃ k parts, selectorSegments (92 : UInt8) 47 s = k :: parts ∧
+      Gen.selector fuel key false_ and_ qual s = some (Bridge.selectorGo false_ and_ qual parts (key k)) :=
+  ⟨_, _, (selector_parts_spec s).symm, Bridge.selector_eq key false_ and_ qual s fuel h⟩
+
+/-- **reassembly, one way**: the segments of ANY string, joined by single slashes, are the string -/
+theorem selector_split_join (s : Pars.Bytes) : joinSep 47 (escSplit (92 : UInt8) 47 s) = s := by
+  rw [escSplit_eq (92 : UInt8) 47 (by decide), joinSep_splitSt]; rfl
+
+/-- **reassembly, the other way**: joining parts by single slashes and splitting gives the parts
+back, provided every part is `sealed` (decidable): it holds no separator of its own and does not end
+in a backslash followed by slashes -/
+theorem selector_join_split_partial (ps : List Pars.Bytes) (hne : ps ≠ [])
+    (hs : ∀ p ∈ ps, sealed (92 : UInt8) 47 p = true) :
+    escSplit (92 : UInt8) 47 (joinSep 47 ps) = ps := by
+  rw [escSplit_eq (92 : UInt8) 47 (by decide)]
+  exact splitSt_joinSep (92 : UInt8) 47 (by decide) ps hne hs
+
+/-- FULL STATEMENT of the escape round trip (false on the model, and on the code): "writing a
+backslash in front of every slash of every part, joining and splitting gives the escaped parts
+back".  Witness: the parts `a/` and `b` — `a\//b` is ONE segment, the separator behind an escaped
+slash is swallowed (a part that ends in a slash cannot be followed by another part). -/
+theorem selector_escape_full_refuted :
+    ¬ (∀ ps : List Pars.Bytes, ps ≠ [] →
+        escSplit (92 : UInt8) 47 (joinSep 47 (ps.map (escapeSep 92 47))) = ps.map (escapeSep 92 47)) := by
+  intro h
+  have := h [[97, 47], [98]] (by decide)
+  revert this
+  decide
+
+/-- **escape round trip**: for parts none of which ends in a slash or a backslash, writing a
+backslash in front of every slash, joining by slashes and splitting gives the escaped parts back
+(the backslashes stay: nothing un-escapes a key or a qualifier name) -/
+theorem selector_escape_partial (ps : List Pars.Bytes) (hne : ps ≠ [])
+    (hl : ∀ p ∈ ps, p.getLast? ≠ some 92 ∧ p.getLast? ≠ some 47) :
+    escSplit (92 : UInt8) 47 (joinSep 47 (ps.map (escapeSep 92 47))) = ps.map (escapeSep 92 47) := by
+  apply selector_join_split_partial _ (by simpa using hne)
+  intro p hp
+  obtain ⟨q, hq, rfl⟩ := List.mem_map.mp hp
+  exact sealed_escapeSep (92 : UInt8) 47 (by decide) q (hl q hq).1 (hl q hq).2
+
+/-- FULL STATEMENT of the conventional reading (false on the model, and on the code): "a `/` splits
+unless it is immediately preceded by a backslash".  Witness `\//`: the conventional reading yields
+the segments `\/` and `` (empty), the code one segment `\//`. -/
+theorem selector_intent_full_refuted :
+    ¬ (∀ s : Pars.Bytes, escSplit (92 : UInt8) 47 s = intentSplit 92 47 s) := by
+  intro h
+  have := h [92, 47, 47]
+  revert this
+  decide
+
+/-- **the conventional reading holds on every string that does not contain `\//`** — two
+backslashes included: in `a\\/b` the slash does not split under either reading -/
+theorem selector_intent_partial (s : Pars.Bytes) (h : hasSticky (92 : UInt8) 47 s = false) :
+    escSplit (92 : UInt8) 47 s = intentSplit 92 47 s :=
+  escSplit_intent (92 : UInt8) 47 (by decide) s h
+
+/-- non-vacuity and the three peculiarities: `gene\/x/note=a\/b/` has the key `gene\/x` (backslash
+kept) and the one clause `note=a\/b`; `a\\/b` is one segment; `a\//b` is one segment; sealed parts;
+an escapable list of parts -/
+example :
+    selectorSegments (92 : UInt8) 47 "gene\\/x/note=a\\/b/".toUTF8.toList =
+      ["gene\\/x".toUTF8.toList, "note=a\\/b".toUTF8.toList] ∧
+    escSplit (92 : UInt8) 47 "a\\\\/b".toUTF8.toList = ["a\\\\/b".toUTF8.toList] ∧
+    escSplit (92 : UInt8) 47 "a\\//b".toUTF8.toList = ["a\\//b".toUTF8.toList] ∧
+    hasSticky (92 : UInt8) 47 "gene\\/x/note=a\\/b/".toUTF8.toList = false ∧
+    (∀ p ∈ ["gene\\/x".toUTF8.toList, "note=a\\/b".toUTF8.toList, []], sealed (92 : UInt8) 47 p = true) ∧
+    (∀ p ∈ ["a/b".toUTF8.toList, "c\\d".toUTF8.toList, []], p.getLast? ≠ some 92 ∧ p.getLast? ≠ some 47) := by
+  decide +kernel
+
+/-- **the syntactic half of `Selector` on strings, EVERY string** (the character-level model the
+protocol op `sel.eval` answers with): key and clauses of the grammar with escapes -/
+theorem parse_selector_esc (s : String) : parseSelector s = ⟨keyEsc s, clausesEsc s⟩ :=
+  parseSelector_esc s
+
+/-- without a backslash the grammar with escapes is the plain one -/
+example : keyEsc "CDS/gene=b/note=a=b/=thrL/" = key "CDS/gene=b/note=a=b/=thrL/" ∧
+    clausesEsc "CDS/gene=b/note=a=b/=thrL/" = clauses "CDS/gene=b/note=a=b/=thrL/" ∧
+    keyEsc "gene\\/x/note=a\\/b" = "gene\\/x" ∧ clausesEsc "gene\\/x/note=a\\/b" = [("note", "a\\/b")] := by
+  decide
+
+/-- **what a clause tests on ANY qualifier table** (repeated names, rows without values — tables
+`Props.Add` cannot build but a caller can; every row has a name: `props[i][0]` panics otherwise).
+`/=regexp`: every value of every row, never a name.  `/name`: is there a row of that name, with or
+without values.  `/name=regexp`: the values of the FIRST row of that name only — `Props.Get` — so a
+later row of the same name is never looked at (the writer, since repair 7b61a9a, writes every row). -/
+theorem qualifier_rows_spec (mtch : String → String → Bool) (name query : String) (f : Feature)
+    (_hrows : Props.rowsOk f.props = true) :
+    qualEval mtch name query f = true ↔ clauseSatRows mtch (name, query) f :=
+  qualEval_rows mtch (name, query) f
+
+/-- FULL STATEMENT of the property's reading on raw tables (false on the model, and on the code):
+"a named clause is satisfied iff some value of that qualifier matches" with `valuesOf` = the values
+of EVERY row of that name.  Witness `/note=b` on the rows `note=a`, `note=b`: only the first row is
+read. -/
+theorem selector_spec_rows_full_refuted :
+    ¬ (∀ (valid : String → Bool) (mtch : String → String → Bool) (s : String) (flt : Filter),
+        selector valid mtch s = some flt → ∀ f : Feature, Props.rowsOk f.props = true →
+        (flt f = true ↔ accepts mtch s f)) := by
+  intro h
+  have hs : ∃ flt, selector (fun _ => true) (fun q w => q == w) "/note=b" = some flt ∧
+      flt ⟨"gene", point 0, [["note", "a"], ["note", "b"]]⟩ = false := by
+    cases hsel : selector (fun _ => true) (fun q w => q == w) "/note=b" with
+    | none => revert hsel; decide
+    | some flt =>
+      refine ⟨flt, rfl, ?_⟩
+      have : (selector (fun _ => true) (fun q w => q == w) "/note=b").map
+          (fun p => p ⟨"gene", point 0, [["note", "a"], ["note", "b"]]⟩) = some false := by decide
+      rw [hsel] at this
+      simpa using this
+  obtain ⟨flt, hflt, hf⟩ := hs
+  have := (h _ _ _ flt hflt ⟨"gene", point 0, [["note", "a"], ["note", "b"]]⟩ (by decide)).mpr (by decide)
+  rw [hf] at this
+  cases this
+
+/-- **The selection clause for EVERY selector string and EVERY qualifier table.**  Whatever the
+string (backslashes included) and whatever the rows (as long as each has a name), `Selector(s)`
+accepts the feature iff the key of the grammar with escapes is empty or equal and every clause is
+satisfied in the row-by-row reading `clauseSatRows`.  On strings without backslash and tables
+`Props.Add` builds this is `selector_spec`. -/
+theorem selector_rows_spec (valid : String → Bool) (mtch : String → String → Bool) (s : String)
+    (flt : Filter) (hflt : selector valid mtch s = some flt)
+    (f : Feature) (_hrows : Props.rowsOk f.props = true) :
+    flt f = true ↔ acceptsRows mtch s f := by
+  unfold selector at hflt
+  rw [parseSelector_esc s] at hflt
+  have h := compile_fold valid mtch (clausesEsc s) (keyF (keyEsc s))
+  have hall : ∀ c ∈ clausesEsc s, valid c.2 = true := by
+    intro c hc
+    cases hv : valid c.2 with
+    | true => rfl
+    | false =>
+      have := h.1 ⟨c, hc, hv⟩
+      simp only [Selector.compile] at hflt
+      rw [this] at hflt; cases hflt
+  obtain ⟨g, hg, hgf⟩ := h.2 hall
+  simp only [Selector.compile] at hflt
+  rw [hg] at hflt
+  cases hflt
+  rw [hgf f, Bool.and_eq_true, keyF_iff, List.all_eq_true]
+  unfold acceptsRows
+  constructor
+  · rintro ⟨h1, h2⟩
+    exact ⟨h1, fun c hc => (qualEval_rows mtch c f).mp (h2 c hc)⟩
+  · rintro ⟨h1, h2⟩
+    exact ⟨h1, fun c hc => (qualEval_rows mtch c f).mpr (h2 c hc)⟩
+
+/-- … and it errs exactly when a clause of the grammar with escapes carries an invalid regexp -/
+theorem selector_error_iff_esc (valid : String → Bool) (mtch : String → String → Bool) (s : String) :
+    selector valid mtch s = none ↔ ∃ c ∈ clausesEsc s, valid c.2 = false := by
+  unfold selector
+  rw [parseSelector_esc s]
+  have h := compile_fold valid mtch (clausesEsc s) (keyF (keyEsc s))
+  constructor
+  · intro hn
+    apply Classical.byContradiction
+    intro hne
+    have hall : ∀ c ∈ clausesEsc s, valid c.2 = true := by
+      intro c hc
+      cases hv : valid c.2 with
+      | true => rfl
+      | false => exact absurd ⟨c, hc, hv⟩ hne
+    obtain ⟨g, hg, _⟩ := h.2 hall
+    simp only [Selector.compile] at hn
+    rw [hn] at hg; cases hg
+  · intro he; exact h.1 he
+
+/-- non-vacuity: an escaped selector on a raw table (a repeated name, a row without value) — accepted
+on both sides; and the first-row reading: `/note=b` sees only `note=a` -/
+example :
+    let m : String → String → Bool := fun q w => q == w
+    let f : Feature := ⟨"CDS", point 3, [["note", "a/b"], ["pseudo"], ["note", "b"]]⟩
+    Props.rowsOk f.props = true ∧
+    (selector (fun _ => true) m "CDS/note=a/b").map (fun p => p f) = some false ∧
+    (selector (fun _ => true) m "CDS/=a\\/b/pseudo").map (fun p => p f) = some false ∧
+    (selector (fun _ => true) m "CDS/=b/pseudo/note=a\\/b").map (fun p => p f) = some false ∧
+    acceptsRows m "CDS/=b/pseudo" f ∧ ¬ acceptsRows m "/note=b" f ∧
+    clausesEsc "CDS/=b/pseudo/note=a\\/b" = [("", "b"), ("pseudo", ""), ("note", "a\\/b")] := by
   decide
 
 /-! ## filter combinators -/
